@@ -132,9 +132,9 @@ def run(h):
     h.coverage_extra["reference_validated"] = ("reference interpreter reproduces %d Octez opcode vectors (%d skipped: "
                                                "instructions outside its scope)" % (passed, skipped))
     size, depth = ((1, 8), 2) if h.quick else ((1, 20), 3)
-    h.run_given(lambda: cases(size, depth), _prop, h.n(60, 6000), shards=16, classify=classify)
-    h.run_given(lambda: cases(size, depth, focused=True), _prop, h.n(120, 6000), shards=16, classify=classify, name="focused")
-    h.run_given(lambda: cases(size, depth, focused=True, session=True), _prop, h.n(40, 3000), shards=16, classify=classify, name="session")
+    h.run_given(lambda: cases(size, depth), _prop, h.n(60, 1500), shards=16, classify=classify)
+    h.run_given(lambda: cases(size, depth, focused=True), _prop, h.n(120, 2000), shards=16, classify=classify, name="focused")
+    h.run_given(lambda: cases(size, depth, focused=True, session=True), _prop, h.n(40, 800), shards=16, classify=classify, name="session")
     h.run_enum(arith_cases(), _prop_grid, shards=16, classify=classify)
     # every message length up to 300 (thorough 1200) bytes for every hash instruction: padding depends on the length only
     top = 300 if h.quick else 1200
